@@ -34,7 +34,7 @@ THEOREMS_BY_PROP = {
     'C08': ['concat_axis0_app', 'concat_axis1_zipapp', 'concat_axis1_lengths'],
     'C09': ['is_none_exact', 'is_none_union_exact', 'is_none_union_axis1', 'is_none_exact_axis1', 'mask_exact', 'mask_exact_lists', 'fill_none_exact', 'fill_none_exact_axis1',
             'firsts_singletons'],
-    'C18': [],
+    'C18': ['lift2_succeeds', 'lift2_error_wins', 'spec_ax_app', 'spec_ax_parts', 'spec_ax_fold', 'axis_top_inner', 'spec_num_app', 'spec_num_parts', 'spec_local_index_app', 'spec_local_index_parts', 'spec_pad_none_app', 'spec_pad_none_parts', 'spec_combinations_app', 'spec_combinations_parts', 'spec_argcombinations_app', 'spec_argcombinations_parts', 'spec_firsts_app', 'spec_firsts_parts', 'spec_is_none_app', 'spec_is_none_parts', 'spec_fill_none_app', 'spec_fill_none_parts', 'flatten_spec_app', 'spec_flatten_axis_app', 'spec_flatten_axis_parts', 'spec_singletons_app', 'spec_values_astype_app', 'sort_spec_app', 'sort_spec_parts', 'sort_spec_inner_app', 'reduce_spec_app', 'reduce_spec_parts', 'spec_reduce_py_app', 'spec_reduce_py_parts', 'py_reduce_rule_sound', 'spec_num_top_app', 'spec_num_top_parts', 'spec_local_index_top_parts', 'spec_local_index_top_app', 'red_leaves_closed_form', 'reduce_leaves_closed_form', 'red_val_app', 'red_val_parts', 'red_comb_unit', 'arg_parts_first_min', 'arg_parts_first_max', 'reduce_leaves_arg_parts', 'leaves_l_app', 'spec_flatten_none_app', 'spec_flatten_none_parts', 'spec_reduce_none_concat', 'reduce_none_parts', 'reduce_none_parts_exact', 'reduce_none_arg_parts', 'leaves_l_perm', 'red_val_perm', 'reduce_none_parts_records', 'reduce_none_parts_records_exact'],
     'C10': ['unzip_zip_partial', 'unzip_zip_lists', 'with_field_get_same', 'with_field_get_other', 'with_field_preserves_shape',
             'with_field_preserves_lists'],
 }
